@@ -78,6 +78,48 @@ def java_env(extra: Optional[Dict[str, str]] = None) -> Dict[str, str]:
 _VERDICT = re.compile(r'^<<"VERDICT", (\d+), (\d+), (.*)>>$')
 
 
+def extract_tuples(out: str, tag: str) -> List[str]:
+    """TLC pretty-prints long values over several lines: find every `<<"tag", ...>>` by
+    bracket matching and return it with whitespace normalised."""
+    res = []
+    pat = re.compile(r'<<\s*"%s"' % re.escape(tag))
+    pos = 0
+    while True:
+        m = pat.search(out, pos)
+        if m is None:
+            break
+        i = m.start()
+        depth = 0
+        j = i
+        in_str = False
+        while j < len(out):
+            ch = out[j]
+            if in_str:
+                if ch == "\\":
+                    j += 2
+                    continue
+                if ch == '"':
+                    in_str = False
+            elif ch == '"':
+                in_str = True
+            elif out.startswith("<<", j):
+                depth += 1
+                j += 2
+                continue
+            elif out.startswith(">>", j):
+                depth -= 1
+                j += 2
+                if depth == 0:
+                    break
+                continue
+            j += 1
+        text = re.sub(r"\s+", " ", out[i:j])
+        text = text.replace("<< ", "<<").replace(" >>", ">>")
+        res.append(text)
+        pos = j
+    return res
+
+
 def parse_fails(text: str) -> List[Tuple[str, str]]:
     """'<<<<"clause", "ctx">>, ...>>' -> [(clause, ctx)]"""
     return re.findall(r'<<"([^"]*)", "([^"]*)">>', text)
@@ -126,8 +168,8 @@ def validate_traces(
         )
         out = proc.stdout
         verdicts: Dict[int, Dict[str, Any]] = {}
-        for line in out.splitlines():
-            mt = _VERDICT.match(line.strip())
+        for text in extract_tuples(out, "VERDICT"):
+            mt = _VERDICT.match(text)
             if mt:
                 tid = int(mt.group(1))
                 verdicts[tid] = {"len": int(mt.group(2)), "fails": parse_fails(mt.group(3))}
